@@ -312,6 +312,10 @@ def parse_misc(cls):
         expect(got == want, f"Reaction.{name}: body is {got}")
     only("is_barrierless", ["return self.ts is None"])
     only("ts", ["return self.tss.lowest_energy"], 0)
+    # the setter clears the list FIRST: None removes every TS, a TransitionState becomes the only one
+    only("ts", ["self.tss.clear()", "if value is None:\n    return",
+                "if not isinstance(value, TransitionState):\n    raise ValueError(f'TS of {self.name} must be a TransitionState')",
+                "self.tss.append(value)"], 1)
     sw = get_def(cls.body, "switch_reactants_products", "Reaction")[0]
     b = [src(s) for s in body_of(sw)]
     expect(b[0] == "self.prods, self.reacs = (self.reacs, self.prods)", f"switch_reactants_products: `{b[0]}`")
